@@ -107,7 +107,8 @@ class Check:
         cfgp = wd / f"{name}.cfg"
         cfgp.write_text(cfg)
         w = str(os.cpu_count() or 4) if workers == "auto" else str(workers)
-        cmd = ["java", "-XX:+UseParallelGC", "-Xss16m", *jvm_opts, "-cp", TLA_CP, "tlc2.TLC",
+        # TLC unpacks its module jars into <java.io.tmpdir>/tlc-<n>: keep that inside the scratch directory, which is removed
+        cmd = ["java", "-XX:+UseParallelGC", "-Xss16m", f"-Djava.io.tmpdir={wd}", *jvm_opts, "-cp", TLA_CP, "tlc2.TLC",
                "-workers", w, "-metadir", str(wd / "meta"), "-noGenerateSpecTE",
                "-config", str(cfgp)]
         if not deadlock:
